@@ -26,6 +26,14 @@ def case_strategy(tier, kinds, dims=(1, 2, 2, 2, 3), kmax=5, **kw):
     return s()
 
 
+def weighted(*pairs):
+    """weighted choice between strategies: (weight, strategy) pairs.  (st.one_of(a, a, b) does NOT weight: it
+    drops repeated strategy objects.)"""
+    from hypothesis import strategies as st
+    table = [s for w, s in pairs for _ in range(int(w))]
+    return st.integers(0, len(table) - 1).flatmap(lambda i: table[i])
+
+
 def big_leaf_case(bdry=True):
     """a single primitive (or its boundary) of size 50 - 400 within about one size of the origin, optionally
     with parameter-dependent shape: absolute tolerances that are fine for unit-sized shapes show here."""
